@@ -124,7 +124,9 @@ def programs(tier):
     out = []
     maxc = 2 if quick else 3
     for r in range(1, maxc + 1):
-        for combo in itertools.permutations(names, r):
+        for ci, combo in enumerate(itertools.permutations(names, r)):
+            if r == 3 and ci % 3:
+                continue  # stated bound: every third ordered triple of statements
             ok, have = True, set()
             for n in combo:
                 if not CREATE[n][3] <= have:
